@@ -394,7 +394,25 @@ class E5Buzzer(Engine):
         return None
 
     def shrink_candidates(self, case: dict) -> Iterable[dict]:
-        return []
+        """Keep a prefix of the call history (the script is cut right after that call's marker)."""
+
+        n = len(case["calls"])
+        lines = case["script"].splitlines()
+        for keep in sorted({1, n // 2, n - 1} - {0, n}):
+            marker = f'mon.write("M{keep - 1}")'
+            idx = next((i for i, l in enumerate(lines) if l.strip() == marker), None)
+            if idx is None:
+                continue
+            c = copy.deepcopy(case)
+            c["script"] = "\n".join(lines[: idx + 1]) + "\n"
+            c["calls"] = c["calls"][:keep]
+            if not any(call["in_loop"] for call in c["calls"]):
+                c["passes"] = 0
+            yield c
+        if case["passes"] > 1:
+            c = copy.deepcopy(case)
+            c["passes"] = 1
+            yield c
 
     def sample_view(self, case: dict):
         return {"script": case["script"][len(HEAD):], "passes": case["passes"]}
